@@ -822,6 +822,7 @@ def array_specs(tier="quick"):
         for e in ("<", ">"):
             out.append(("contracts.leaf", "make_array", (t, e, "read_0")))
             out.append(("contracts.leaf", "make_array", (t, e, "write_0")))
+            out.append(("contracts.leaf", "make_array", (t, e, "read_array_eof")))
     return out + read0_specs()
 
 
